@@ -334,8 +334,11 @@ theorem requestLoop_frame (q : Int) : ∀ (snap : List Nat) (s : State) (acc : L
       rw [← h.1]; simp
     · split at h
       · cases h
-      · have := ih _ _ _ _ h
-        simpa using this
+      · split at h
+        · have := ih _ _ _ _ h
+          simpa using this
+        · have := ih _ _ _ _ h
+          simpa using this
 
 theorem step_frame_other {s s' : State} {op : Op} (hop : ∀ b d, op ≠ .gotBlock b d)
     (h : step s op = some s') : s'.blocks = s.blocks ∧ s'.buf = s.buf ∧ s'.done = s.done := by
@@ -728,10 +731,12 @@ theorem requestLoop_pending (q M : Int) (hq : q ≤ M) : ∀ (snap : List Nat) (
     · rename_i hguard
       split at h
       · cases h
-      · apply ih _ _ _ _ h
-        have := @length_setInsert_le s.pending x
-        simp only
-        omega
+      · split at h
+        · exact ih _ _ _ _ h hm
+        · apply ih _ _ _ _ h
+          have := @length_setInsert_le s.pending x
+          simp only
+          omega
 
 theorem step_pending {ops : List Op} {s s' : State} {op : Op} (h : step s op = some s')
     (hm : (s.pending.length : Int) ≤ maxQ ops) : (s'.pending.length : Int) ≤ maxQ (ops ++ [op]) := by
@@ -841,16 +846,20 @@ theorem requestLoop_some {bl : List Block} {n : Nat} (hw : WFBlocks bl n) (q : I
     · obtain ⟨l, hl⟩ := mapGet_key hw (hsnap x List.mem_cons_self)
       rw [hi.blocks, hl]
       simp only
-      apply ih
-      · intro y hy; exact hsnap y (List.mem_cons_of_mem _ hy)
-      · refine ⟨rfl, ?_, ?_⟩
-        · intro y hy
-          simp only at hy
-          rcases mem_setInsert.mp hy with hy | rfl
-          · exact hi.pendSub y hy
-          · exact hsnap _ List.mem_cons_self
-        · intro y hy
-          exact hi.remSub y (List.mem_of_mem_drop hy)
+      split
+      · apply ih
+        · intro y hy; exact hsnap y (List.mem_cons_of_mem _ hy)
+        · exact ⟨rfl, hi.pendSub, fun y hy => hi.remSub y (List.mem_of_mem_drop hy)⟩
+      · apply ih
+        · intro y hy; exact hsnap y (List.mem_cons_of_mem _ hy)
+        · refine ⟨rfl, ?_, ?_⟩
+          · intro y hy
+            simp only at hy
+            rcases mem_setInsert.mp hy with hy | rfl
+            · exact hi.pendSub y hy
+            · exact hsnap _ List.mem_cons_self
+          · intro y hy
+            exact hi.remSub y (List.mem_of_mem_drop hy)
 
 theorem mapM_some {α β : Type} (f : α → Option β) : ∀ (l : List α), (∀ x ∈ l, ∃ y, f x = some y) →
     ∃ r, l.mapM f = some r := by
@@ -950,6 +959,425 @@ theorem run_some {bl : List Block} {n : Nat} (hw : WFBlocks bl n) : ∀ (ops : L
 
 theorem inv2_init {bl : List Block} (af : Bool) (buf : Bytes) : Inv2 bl (init bl af buf) :=
   ⟨rfl, by simp [init], by simp [init, makeRemaining]⟩
+
+/-! ### The request window holds only unanswered requests; `RequestBlocks` makes progress (C10) -/
+
+/-- No block is both in the request window and received. -/
+def PendFresh (s : State) : Prop := ∀ x ∈ s.pending, x ∉ s.done
+
+theorem pendFresh_init (bl : List Block) (af : Bool) (buf : Bytes) : PendFresh (init bl af buf) := by
+  intro x hx
+  simp [init] at hx
+
+theorem requestLoop_pendFresh (q : Int) : ∀ (snap : List Nat) (s : State) (acc : List (Nat × Nat))
+    (s' : State) (r : List (Nat × Nat)), requestLoop q snap s acc = some (s', r) →
+    PendFresh s → PendFresh s' := by
+  intro snap
+  induction snap with
+  | nil =>
+    intro s acc s' r h hp
+    simp [requestLoop] at h
+    rw [← h.1]; exact hp
+  | cons x rest ih =>
+    intro s acc s' r h hp
+    unfold requestLoop at h
+    split at h
+    · simp at h
+      rw [← h.1]; exact hp
+    · split at h
+      · cases h
+      · split at h
+        · exact ih _ _ _ _ h hp
+        · rename_i hnd
+          apply ih _ _ _ _ h
+          intro y hy
+          rcases mem_setInsert.mp hy with hy | rfl
+          · exact hp y hy
+          · simpa using hnd
+
+theorem step_pendFresh {s s' : State} {op : Op} (hp : PendFresh s) (h : step s op = some s') :
+    PendFresh s' := by
+  cases op with
+  | gotBlock b d =>
+    simp only [step, Option.some.injEq] at h
+    subst h
+    unfold gotBlock
+    split
+    · exact hp
+    · split
+      · exact hp
+      · split
+        · exact hp
+        · split
+          · rename_i hnp
+            have hnp' : b ∉ s.pending := by simpa using hnp
+            intro y hy hyd
+            simp only at hy hyd
+            rcases mem_setInsert.mp hyd with hyd | rfl
+            · exact hp y hy hyd
+            · exact hnp' hy
+          · intro y hy hyd
+            simp only at hy hyd
+            obtain ⟨hy1, hy2⟩ := mem_setDelete.mp hy
+            rcases mem_setInsert.mp hyd with hyd | rfl
+            · exact hp y hy1 hyd
+            · exact hy2 rfl
+  | choked pf order =>
+    simp only [step, Option.some.injEq] at h
+    subst h
+    unfold choked
+    split
+    · exact hp
+    · split
+      · exact hp
+      · intro y hy
+        simp at hy
+  | rejected b l =>
+    simp only [step, Option.some.injEq] at h
+    subst h
+    unfold rejected
+    split
+    · exact hp
+    · intro y hy
+      exact hp y (mem_setDelete.mp hy).1
+  | requestBlocks q =>
+    simp only [step, requestBlocks, Option.map_eq_some_iff] at h
+    obtain ⟨⟨s1, r⟩, h1, h2⟩ := h
+    simp only at h2
+    subst h2
+    exact requestLoop_pendFresh q _ _ _ _ _ h1 hp
+  | cancelPending =>
+    simp only [step, Option.map_eq_some_iff] at h
+    obtain ⟨_, _, h2⟩ := h
+    subst h2
+    exact hp
+  | done =>
+    simp only [step, Option.some.injEq] at h
+    subst h
+    exact hp
+
+theorem run_pendFresh : ∀ (ops : List Op) (s s' : State), PendFresh s → run s ops = some s' →
+    PendFresh s' := by
+  intro ops
+  induction ops with
+  | nil =>
+    intro s s' hp h
+    simp [run, List.foldlM] at h
+    subst h
+    exact hp
+  | cons op rest ih =>
+    intro s s' hp h
+    unfold run at h
+    rw [List.foldlM_cons] at h
+    cases hs : step s op with
+    | none => rw [hs] at h; cases h
+    | some s1 =>
+      rw [hs] at h
+      exact ih s1 s' (step_pendFresh hp hs) h
+
+/-- Every block of the piece is accounted for (to be requested, requested, or received), and `done`
+is a duplicate-free set of block keys. -/
+structure Inv3 (bl : List Block) (s : State) : Prop where
+  cover : ∀ x ∈ bl.map (·.b), x ∈ s.remaining ∨ x ∈ s.pending ∨ x ∈ s.done
+  doneSub : ∀ x ∈ s.done, x ∈ bl.map (·.b)
+  doneNodup : s.done.Nodup
+
+theorem inv3_init (bl : List Block) (af : Bool) (buf : Bytes) : Inv3 bl (init bl af buf) :=
+  ⟨fun x hx => Or.inl (by simpa [init, makeRemaining] using hx), by simp [init], by simp [init]⟩
+
+theorem requestLoop_acc_le (q : Int) : ∀ (snap : List Nat) (s : State) (acc : List (Nat × Nat))
+    (s' : State) (r : List (Nat × Nat)), requestLoop q snap s acc = some (s', r) →
+    acc.length ≤ r.length := by
+  intro snap
+  induction snap with
+  | nil =>
+    intro s acc s' r h
+    simp [requestLoop] at h
+    rw [← h.2]; simp
+  | cons x rest ih =>
+    intro s acc s' r h
+    unfold requestLoop at h
+    split at h
+    · simp at h
+      rw [← h.2]; simp
+    · split at h
+      · cases h
+      · split at h
+        · exact ih _ _ _ _ h
+        · have := ih _ _ _ _ h
+          simp only [List.length_cons] at this
+          omega
+
+theorem requestLoop_pending_mono (q : Int) (y : Nat) : ∀ (snap : List Nat) (s : State)
+    (acc : List (Nat × Nat)) (s' : State) (r : List (Nat × Nat)),
+    requestLoop q snap s acc = some (s', r) → y ∈ s.pending → y ∈ s'.pending := by
+  intro snap
+  induction snap with
+  | nil =>
+    intro s acc s' r h hy
+    simp [requestLoop] at h
+    rw [← h.1]; exact hy
+  | cons x rest ih =>
+    intro s acc s' r h hy
+    unfold requestLoop at h
+    split at h
+    · simp at h
+      rw [← h.1]; exact hy
+    · split at h
+      · cases h
+      · split at h
+        · exact ih _ _ _ _ h hy
+        · exact ih _ _ _ _ h (mem_setInsert.mpr (Or.inl hy))
+
+/-- The loop loses no block: what was to be requested, requested or received still is. -/
+theorem requestLoop_cover (q : Int) (y : Nat) : ∀ (snap : List Nat) (s : State)
+    (acc : List (Nat × Nat)) (s' : State) (r : List (Nat × Nat)), s.remaining = snap →
+    requestLoop q snap s acc = some (s', r) →
+    (y ∈ s.remaining ∨ y ∈ s.pending ∨ y ∈ s.done) →
+    (y ∈ s'.remaining ∨ y ∈ s'.pending ∨ y ∈ s'.done) := by
+  intro snap
+  induction snap with
+  | nil =>
+    intro s acc s' r _ h hy
+    simp [requestLoop] at h
+    rw [← h.1]; exact hy
+  | cons x rest ih =>
+    intro s acc s' r hrem h hy
+    unfold requestLoop at h
+    split at h
+    · simp at h
+      rw [← h.1]; exact hy
+    · split at h
+      · cases h
+      · split at h
+        · rename_i hd
+          have hd' : x ∈ s.done := by simpa using hd
+          apply ih _ _ _ _ (by simp [hrem]) h
+          simp only [hrem, List.drop_succ_cons, List.drop_zero]
+          rw [hrem] at hy
+          rcases hy with hy | hy | hy
+          · rcases List.mem_cons.mp hy with rfl | hy
+            · exact Or.inr (Or.inr hd')
+            · exact Or.inl hy
+          · exact Or.inr (Or.inl hy)
+          · exact Or.inr (Or.inr hy)
+        · apply ih _ _ _ _ (by simp [hrem]) h
+          simp only [hrem, List.drop_succ_cons, List.drop_zero]
+          rw [hrem] at hy
+          rcases hy with hy | hy | hy
+          · rcases List.mem_cons.mp hy with rfl | hy
+            · exact Or.inr (Or.inl (mem_setInsert.mpr (Or.inr rfl)))
+            · exact Or.inl hy
+          · exact Or.inr (Or.inl (mem_setInsert.mpr (Or.inl hy)))
+          · exact Or.inr (Or.inr hy)
+
+/-- With room in the window the loop either issues a request or runs `remaining` empty without
+touching the window. -/
+theorem requestLoop_progress (q : Int) : ∀ (snap : List Nat) (s : State)
+    (acc : List (Nat × Nat)) (s' : State) (r : List (Nat × Nat)), s.remaining = snap →
+    requestLoop q snap s acc = some (s', r) → (s.pending.length : Int) < q →
+    acc.length < r.length ∨ (s'.remaining = [] ∧ s'.pending = s.pending) := by
+  intro snap
+  induction snap with
+  | nil =>
+    intro s acc s' r hrem h _
+    simp [requestLoop] at h
+    rw [← h.1]
+    exact Or.inr ⟨hrem, rfl⟩
+  | cons x rest ih =>
+    intro s acc s' r hrem h hq
+    unfold requestLoop at h
+    split at h
+    · rename_i hg
+      omega
+    · split at h
+      · cases h
+      · split at h
+        · have := ih _ _ _ _ (by simp [hrem]) h hq
+          exact this
+        · have := requestLoop_acc_le q _ _ _ _ _ h
+          simp only [List.length_cons] at this
+          left; omega
+
+/-- Every request the loop adds is for a block of the table that has not been received, and is in the
+window afterwards. -/
+theorem requestLoop_issued (q : Int) (e : Nat × Nat) : ∀ (snap : List Nat) (s : State)
+    (acc : List (Nat × Nat)) (s' : State) (r : List (Nat × Nat)),
+    requestLoop q snap s acc = some (s', r) → e ∈ r →
+    e ∈ acc ∨ (mapGet s.blocks e.1 = some e.2 ∧ e.1 ∉ s.done ∧ e.1 ∈ s'.pending) := by
+  intro snap
+  induction snap with
+  | nil =>
+    intro s acc s' r h he
+    simp [requestLoop] at h
+    rw [← h.2] at he
+    exact Or.inl (List.mem_reverse.mp he)
+  | cons x rest ih =>
+    intro s acc s' r h he
+    unfold requestLoop at h
+    split at h
+    · simp at h
+      rw [← h.2] at he
+      exact Or.inl (List.mem_reverse.mp he)
+    · split at h
+      · cases h
+      · rename_i len hlen
+        split at h
+        · have := ih _ _ _ _ h he
+          exact this
+        · rename_i hnd
+          rcases ih _ _ _ _ h he with hacc | hnew
+          · rcases List.mem_cons.mp hacc with rfl | hacc
+            · right
+              refine ⟨hlen, by simpa using hnd, ?_⟩
+              exact requestLoop_pending_mono q _ _ _ _ _ _ h (mem_setInsert.mpr (Or.inr rfl))
+            · exact Or.inl hacc
+          · exact Or.inr hnew
+
+theorem step_inv3 {bl : List Block} {n : Nat} (hw : WFBlocks bl n) {s s' : State} {op : Op}
+    (hb : s.blocks = makeBlocks bl) (hi : Inv3 bl s)
+    (hadm : ∀ pf order, op = .choked pf order → chokedRequeues s pf = true → chokedAdmissible s order = true)
+    (h : step s op = some s') : Inv3 bl s' := by
+  cases op with
+  | gotBlock b d =>
+    simp only [step, Option.some.injEq] at h
+    subst h
+    unfold gotBlock
+    split
+    · exact hi
+    · rename_i hf
+      have hf' : findBlock s b d.length = true := by simpa using hf
+      have hkey : b ∈ bl.map (·.b) :=
+        List.mem_map.mpr ⟨_, (findBlock_iff hw s hb b d.length).mp hf', rfl⟩
+      split
+      · exact hi
+      · split
+        · exact hi
+        · have hsub : ∀ x ∈ setInsert s.done b, x ∈ bl.map (·.b) := by
+            intro x hx
+            rcases mem_setInsert.mp hx with hx | rfl
+            · exact hi.doneSub x hx
+            · exact hkey
+          split
+          · refine ⟨?_, hsub, nodup_setInsert hi.doneNodup⟩
+            intro x hx
+            rcases hi.cover x hx with hx | hx | hx
+            · exact Or.inl hx
+            · exact Or.inr (Or.inl hx)
+            · exact Or.inr (Or.inr (mem_setInsert.mpr (Or.inl hx)))
+          · refine ⟨?_, hsub, nodup_setInsert hi.doneNodup⟩
+            intro x hx
+            rcases hi.cover x hx with hx | hx | hx
+            · exact Or.inl hx
+            · by_cases hxb : x = b
+              · exact Or.inr (Or.inr (mem_setInsert.mpr (Or.inr hxb)))
+              · exact Or.inr (Or.inl (mem_setDelete.mpr ⟨hx, hxb⟩))
+            · exact Or.inr (Or.inr (mem_setInsert.mpr (Or.inl hx)))
+  | choked pf order =>
+    simp only [step, Option.some.injEq] at h
+    subst h
+    unfold choked
+    by_cases haf : s.allowedFast = true
+    · simp only [haf, if_true]; exact hi
+    · by_cases hpf : pf = true
+      · simp only [haf, hpf, if_true]
+        simp; exact hi
+      · have hq : chokedRequeues s pf = true := by
+          unfold chokedRequeues
+          simp at haf hpf
+          simp [haf, hpf]
+        have hperm := List.isPerm_iff.mp (hadm pf order rfl hq)
+        simp only [haf, hpf]
+        refine ⟨?_, hi.doneSub, hi.doneNodup⟩
+        intro x hx
+        simp only [Bool.false_eq_true, if_false, List.mem_append]
+        rcases hi.cover x hx with hx | hx | hx
+        · exact Or.inl (Or.inl hx)
+        · exact Or.inl (Or.inr (hperm.symm.subset hx))
+        · exact Or.inr (Or.inr hx)
+  | rejected b l =>
+    simp only [step, Option.some.injEq] at h
+    subst h
+    unfold rejected
+    split
+    · exact hi
+    · refine ⟨?_, hi.doneSub, hi.doneNodup⟩
+      intro x hx
+      simp only [List.mem_append, List.mem_singleton]
+      rcases hi.cover x hx with hx | hx | hx
+      · exact Or.inl (Or.inl hx)
+      · by_cases hxb : x = b
+        · exact Or.inl (Or.inr hxb)
+        · exact Or.inr (Or.inl (mem_setDelete.mpr ⟨hx, hxb⟩))
+      · exact Or.inr (Or.inr hx)
+  | requestBlocks q =>
+    simp only [step, requestBlocks, Option.map_eq_some_iff] at h
+    obtain ⟨⟨s1, r⟩, h1, h2⟩ := h
+    simp only at h2
+    subst h2
+    have hfr := requestLoop_frame q _ _ _ _ _ h1
+    refine ⟨fun x hx => requestLoop_cover q x _ _ _ _ _ rfl h1 (hi.cover x hx), ?_, ?_⟩
+    · rw [hfr.2.2.1]; exact hi.doneSub
+    · rw [hfr.2.2.1]; exact hi.doneNodup
+  | cancelPending =>
+    simp only [step, Option.map_eq_some_iff] at h
+    obtain ⟨_, _, h2⟩ := h
+    subst h2
+    exact hi
+  | done =>
+    simp only [step, Option.some.injEq] at h
+    subst h
+    exact hi
+
+/-- Along an admissible history both bookkeeping invariants hold at the end. -/
+theorem run_inv23 {bl : List Block} {n : Nat} (hw : WFBlocks bl n) : ∀ (ops : List Op) (s s' : State),
+    Inv2 bl s → Inv3 bl s → admissibleRun s ops = true → run s ops = some s' →
+    Inv2 bl s' ∧ Inv3 bl s' := by
+  intro ops
+  induction ops with
+  | nil =>
+    intro s s' h2 h3 _ h
+    simp [run, List.foldlM] at h
+    subst h
+    exact ⟨h2, h3⟩
+  | cons op rest ih =>
+    intro s s' h2 h3 hadm h
+    unfold admissibleRun at hadm
+    rw [Bool.and_eq_true] at hadm
+    have hadm1 : ∀ pf order, op = .choked pf order → chokedRequeues s pf = true →
+        chokedAdmissible s order = true := by
+      intro pf order hop hq
+      subst hop
+      have := hadm.1
+      simp only [hq, Bool.not_true, Bool.false_or] at this
+      exact this
+    obtain ⟨s1, hs1, h21⟩ := step_some hw h2 op hadm1
+    have h31 := step_inv3 hw h2.blocks h3 hadm1 hs1
+    have hrest := hadm.2
+    rw [hs1] at hrest
+    unfold run at h
+    rw [List.foldlM_cons, hs1] at h
+    exact ih s1 s' h21 h31 hrest h
+
+/-- `Done()` is false: some block of the piece has not been received. -/
+theorem not_isDone_missing {bl : List Block} {n : Nat} (hw : WFBlocks bl n) {s : State}
+    (hb : s.blocks = makeBlocks bl) (hi : Inv3 bl s) (hnd : isDone s = false) :
+    ∃ b ∈ bl, b.b ∉ s.done := by
+  apply Classical.byContradiction
+  intro hne
+  have hall : bl.map (·.b) ⊆ s.done := by
+    intro x hx
+    obtain ⟨y, hy, hyx⟩ := List.mem_map.mp hx
+    apply Classical.byContradiction
+    intro hxd
+    exact hne ⟨y, hy, by rw [hyx]; exact hxd⟩
+  have h1 := List.Nodup.length_le_of_subset hi.doneNodup hi.doneSub
+  have h2 := List.Nodup.length_le_of_subset hw.nodup_keys hall
+  have hlenB : s.blocks.length = bl.length := by rw [hb, makeBlocks_eq hw]; simp
+  unfold isDone at hnd
+  rw [hlenB] at hnd
+  simp at h1 h2 hnd
+  omega
 
 /-! ### Blocks cover exactly the data bytes -/
 
